@@ -10,7 +10,7 @@ EXPLANATION = ('2-D chain under contract (real source, all trace/sample counts, 
                'returns entry i of each stored array.')
 ASSUMPTIONS = [
     'AX-ZFP-ENC/DEC for 2-D arrays (cells of 4x4, C order), AX-SEGYIO-R trace/header accessors by trace ordinal; detect_geometry (2-D detection from headers) is read, not verified',
-    'io_thread_func_2d is verified per trace-group extent b1 in {4,8,16} (quick) / {4,8,16,32} (thorough) by unrolling; the producer uses it by contract only for those',
+    'io_thread_func_2d is verified for a SYMBOLIC trace-group extent (independent iterations, if-converted arms) and unrolled for b1 = 4, 8 (thorough: 16, 32) as a cross-check; the producer uses it by contract for every extent',
     '2-D files carry a version newer than 0.2.1 (the trace-count word exists since then)',
 ]
 TRUSTED = []
